@@ -82,7 +82,8 @@ Record enc_params := mkParams {
 
 Definition send_rect (p : enc_params) (x y w h : nat) (scr : grid) : res (list wrect) :=
   let enc := p_enc p in
-  if (enc =? c_encRaw)%Z then send_raw (p_bypp p) x y w h scr
+  (* case -1: (no SetEncodings received yet) and case rfbEncodingRaw: share rfbSendRectEncodingRaw *)
+  if ((enc =? c_encRaw) || (enc =? -1))%Z then send_raw (p_bypp p) x y w h scr
   else if (enc =? c_encRRE)%Z then send_rre 2 c_encRRE (p_bypp p) x y w h scr
   else if (enc =? c_encCoRRE)%Z then send_corre (p_mw p) (p_mh p) (p_bypp p) x y w h scr
   else if (enc =? c_encHextile)%Z then send_hextile (p_bypp p) x y w h scr
